@@ -1,3 +1,3 @@
 (* rtpmjpeg: the proofs are split over PEnc.v (encoder, C06), PDec.v (arbitrary histories, C08) and
    PRT.v (round trip C03, resynchronisation C07); this file only re-exports them. *)
-From GV_mjpeg Require Export Tables Model PEnc PDec PRT.
+From GV_mjpeg Require Export Tables Model PEnc PDec PRT PParse.
